@@ -79,7 +79,9 @@ def build(defs):
         rows = sorted(d["rows"])
         nontrivial += sum(1 for r in rows if kind_of(r) != "equal")
         if rows:
-            cases.append({"id": len(cases), "k": "projdef", "tag": "class", "def": d["def"], "points": pts, "rows": rows, "lin": LIN, "ang": ANG, "ground": ground(d)})
+            cases.append({"id": len(cases), "k": "projdef", "tag": "class", "def": d["def"], "points": pts, "rows": rows, "lin": LIN, "ang": ANG, "ground": ground(d),
+                          # a latitude of origin is removed inside the operator (k_0 * meridian arc of lat_0): rounding at that magnitude
+                          "origin": ground(d) * math.pi / 2 if "lat_0=" in d["def"] and d["proj"] in ("tmerc", "btmerc") else 0.0})
         # resolved record vs params()
         real = {}
         if d["x0"] != "None":
@@ -192,7 +194,7 @@ def run(tier, seed):
     res.samples = list(byk.values())[:6]
     res.assumptions = [
         "lat_ts <-> k_0: k_0 = cos(phi)/sqrt(1 - e^2 sin^2(phi)) is evaluated in the driver (numeric step outside the model), counted in assumption_evaluations; e^2 from the rf written in the definition (or 0 for the built-in spheres)",
-        "relations are compared to 1e-9 m + 16 ulp of the largest magnitude involved (forward; plus k_0*a*16 ulp(pi) where lon_0 differs, because lon - lon_0 is rounded at the magnitude of the longitudes), 1e-9 m / a + 16 ulp(pi) + 16 ulp(false origin)/(k_0*a) radians (inverse, longitudes modulo 2 pi)",
+        "relations are compared to 1e-9 m + 16 ulp of the largest magnitude involved (false origins; for tmerc/btmerc with lat_0 also the meridian arc k_0 a pi/2 that the operator removes internally) (forward; plus k_0*a*16 ulp(pi) where lon_0 differs, because lon - lon_0 is rounded at the magnitude of the longitudes), 1e-9 m / a + 16 ulp(pi) + 16 ulp(false origin)/(k_0*a) radians (inverse, longitudes modulo 2 pi)",
         "lat_0 of merc/tmerc/btmerc, lonc of omerc and lat_ts together with k_0 are outside the statement and never written; lat_0 appears only as a fixed shape parameter (lcc, laea, somerc)",
         "parameters a projection does not list (k_0 for laea, lon_0 for omerc, everything but ellps for webmerc) are never written",
         "semi-major axis scaling uses the 'a,rf' spelling of ellipsoids; merc/webmerc on a sphere use the built-in spheres (sphere, unitsphere)",
